@@ -458,7 +458,10 @@ class BuiltinMixin:
                 sep = const_str(args[0]) if args else None
                 if cs is not None and (sep is not None or not args):
                     return st.alloc(HeapObj("list", "list", items=[zstr(p) for p in (cs.split(sep) if args else cs.split())]))
-                raise OutsideSubset("split of a symbolic string")
+                fn = smt.ufunc("str.split", Str, Str, z3.SeqSort(Str))
+                r = fn(s, self.to_z(st, args[0], T("str")).e if args else z3.StringVal(" "))
+                st.axioms.append(z3.Length(r) >= 1)      # str.split(sep) never returns an empty list
+                return Z(T("seq", (T("str"),)), r)
             if meth == "format":
                 raise OutsideSubset("str.format")
             if meth in ("isupper", "isdigit", "isalpha"):
